@@ -17,6 +17,10 @@ generator function).  It never invents, alters (other than dropping the path fie
   perm       (id-stable sides only) the deliverable events of one call are handed out in a random order;
   drop_path  the path field of a copy is removed (only path-style providers and filtered streams carry one);
   idless_dir_delete  folder deletions are delivered without id, with their path (MockProvider's dropbox switch).
+  long_hold  (id-stable sides only) an event may be held for 3-12 further SYNC STEPS of the engine even when nothing else
+             is pending on its side - but only while the sync manager still has pending work of its own (change set not
+             empty); the moment the engine would otherwise go quiet every held event is released.  hold_dirs: the long
+             hold is applied to the creation events of folders (the child's event overtakes the parent's).
 Flush rule (DESIGN §7 E-10): the mangler never answers "no events" while it still holds one - if nothing is
 due, the oldest held event is released.  The engine therefore cannot go quiet with undelivered events, so no
 event is delayed across a drain; delays and permutations stay inside the window between two drains.
@@ -36,8 +40,11 @@ class Mangler:
         self.oip = oip
         self.plan = plan
         self.rng = random.Random("%s/%d" % (seed, side))
-        self.buf = []            # [event, hold]
-        self.stats = dict(events=0, copies=0, dropped_paths=0, held=0, forced=0, calls=0, permuted=0, late=0)
+        self.buf = []            # [event, hold (calls of events()), fresh, release_at (sync-step count) | None]
+        self.pending = lambda: False     # the sync manager has work of its own (set by run_one)
+        self.syncs = lambda: 0           # number of sync steps so far (set by run_one)
+        self.stats = dict(events=0, copies=0, dropped_paths=0, held=0, forced=0, calls=0, permuted=0, late=0, long_held=0,
+                          long_released_by_quiet=0, max_sync_steps_held=0)
 
     def _pull(self):
         pl, rng = self.plan, self.rng
@@ -48,14 +55,14 @@ class Mangler:
             self.raw_seen = getattr(self, "raw_seen", []) + list(self.raw())
             if not getattr(self, "script_done", False) and len(self.raw_seen) > max(script):
                 for i in script:
-                    self.buf.append([dataclasses.replace(self.raw_seen[i]), 0, True])
+                    self.buf.append([dataclasses.replace(self.raw_seen[i]), 0, True, None, 0])
                     self.stats["copies"] += 1
                 self.stats["events"] += len(self.raw_seen)
                 self.raw_seen = self.raw_seen[max(script) + 1:]
                 self.script_done = True
             elif getattr(self, "script_done", False):
                 for ev in self.raw_seen:
-                    self.buf.append([dataclasses.replace(ev), 0, True])
+                    self.buf.append([dataclasses.replace(ev), 0, True, None, 0])
                     self.stats["events"] += 1
                     self.stats["copies"] += 1
                 self.raw_seen = []
@@ -78,7 +85,18 @@ class Mangler:
                 if k > 0 and stable and pl.get("late_dup") and rng.random() < 0.6:
                     hold += rng.randint(1, 3)
                     self.stats["late"] += 1
-                self.buf.append([c, hold, True])
+                release = None
+                if stable and pl.get("long_hold") and k == 0:
+                    from cloudsync.types import DIRECTORY
+                    if pl.get("hold_dirs"):
+                        want = c.otype == DIRECTORY and c.exists is not False
+                    else:
+                        want = rng.random() < 0.35
+                    if want:
+                        lo, hi = pl.get("long_range", [3, 12])
+                        release = self.syncs() + rng.randint(lo, hi)
+                        self.stats["long_held"] += 1
+                self.buf.append([c, hold, True, release, self.syncs()])
                 self.stats["copies"] += 1
 
     def events(self):
@@ -90,9 +108,26 @@ class Mangler:
                 item[2] = False          # fresh in this call: the hold counts further calls
             else:
                 item[1] -= 1
-        due = [it for it in self.buf if it[1] <= 0]
-        if not due and self.buf and not self.plan.get("across_drain"):
-            due = [self.buf[0]]          # flush rule
+        longs = [it for it in self.buf if it[3] is not None]
+        if longs:
+            # long holds last only while the sync manager has pending work of its own: never across a quiet point
+            other_due = any(it[3] is None and it[1] <= 0 for it in self.buf)
+            if not self.pending() and not other_due:
+                # (events handed out in this very call will give the sync manager work: the hold goes on)
+                for it in longs:
+                    it[3] = None
+                    it[1] = 0
+                    self.stats["long_released_by_quiet"] += 1
+            else:
+                now = self.syncs()
+                for it in longs:
+                    if now >= it[3]:
+                        it[3] = None
+                        it[1] = min(it[1], 0)
+        due = [it for it in self.buf if it[1] <= 0 and it[3] is None]
+        short = [it for it in self.buf if it[3] is None]
+        if not due and short and not self.plan.get("across_drain"):
+            due = [short[0]]             # flush rule
             self.stats["forced"] += 1
         if (not self.oip) and self.plan.get("perm") and len(due) > 1:
             self.rng.shuffle(due)
@@ -101,6 +136,7 @@ class Mangler:
             due = due[:1]
         for it in due:
             self.buf.remove(it)
+            self.stats["max_sync_steps_held"] = max(self.stats["max_sync_steps_held"], self.syncs() - it[4])
             yield it[0]
 
 
@@ -115,6 +151,8 @@ PLANS = [
     ("delay", dict(delay=True)),
     ("perm", dict(perm=True)),
     ("delay+perm+dup", dict(delay=True, perm=True, dup=True, late_dup=True)),
+    ("long_hold", dict(long_hold=True)),
+    ("long_hold+perm+dup", dict(long_hold=True, perm=True, dup=True, delay=True)),
     ("all", dict(delay=True, perm=True, dup=True, late_dup=True, batch=True, drop_path=True)),
 ]
 
@@ -175,6 +213,60 @@ def mangled(rng):
     return case
 
 
+def reuse_folder(rng):
+    """Stream A, folder NAME re-use across a drain (inside the clean domain: a path may be occupied again after a quiet
+    point): a folder is created (sometimes used), emptied, deleted - each bracketed by drains - and a NEW folder of the
+    same name is created with content in it; the events of the new folder are held long, so its children's events arrive
+    first and the engine meets a child whose parent it only knows as the tombstone of the earlier folder."""
+    side = rng.choice([0, 1])
+    fl = rng.choice([f for f in F.CLEAN_FLAVOURS if not f.oip[side]])
+    g = EC.Gen(rng, fl, [side], 0)
+    g.make_base(rng.randint(0, 3))
+    parent = rng.choice([d for d in g.dirs(side) if d.count("/") < 2])
+    name = parent + "/" + g.fresh("D")
+    sched = g.sched
+    if rng.random() < 0.5:
+        g.base.append(["mkdir", g.abs(0, name)])          # the first folder of that name is part of the synchronised base
+    else:
+        sched.append(["user", side, ["mkdir", g.abs(side, name)]])
+        g.engine_noise(0.5)
+    sched.append(["drain"])
+    if rng.random() < 0.5:                                # the first folder is used and emptied again
+        f = name + "/" + g.fresh("F")
+        sched.append(["user", side, ["create", g.abs(side, f), g.content()]])
+        g.engine_noise(0.5)
+        sched.append(["drain"])
+        sched.append(["user", side, ["delete", g.abs(side, f)]])
+        sched.append(["drain"])
+    sched.append(["user", side, ["delete", g.abs(side, name)]])
+    sched.append(["drain"])
+    # the same name again: a new object
+    sched.append(["user", side, ["mkdir", g.abs(side, name)]])
+    g.tree[name] = "D"
+    for _ in range(rng.randint(1, 3)):
+        r = rng.random()
+        if r < 0.7:
+            rel = name + "/" + g.fresh("F")
+            g.tree[rel] = "F"
+            sched.append(["user", side, ["create", g.abs(side, rel), g.content()]])
+        elif r < 0.85:
+            rel = name + "/" + g.fresh("D")
+            g.tree[rel] = "D"
+            sched.append(["user", side, ["mkdir", g.abs(side, rel)]])
+        else:
+            g.one_op_simple(side)
+    n = rng.randint(0, 30)
+    for _ in range(n):
+        sched.append(rng.choice([["intake", 0], ["intake", 1], ["sync"], ["sync"]]))
+    sched.append(["drain"])
+    plan = dict(long_hold=True, hold_dirs=rng.random() < 0.7, long_range=[6, 12])
+    if rng.random() < 0.3:
+        plan["dup"] = True
+    return dict(flavour=fl.key(), base=g.base, schedule=sched, hash_mult=rng.choice([1, 3, 7, 11, 2654435761]),
+                mode=dict(origin=side, check_spec=True, no_conflicted=True, cov_every_step=False),
+                mangle=dict(plan, name="reuse_folder+long_hold", seed=rng.randrange(1 << 30), form="window"))
+
+
 # ------------------------------------------------------------------ running one case twice
 def _strip_hooks(sched):
     return [a for a in sched if a[0] != "hook"]
@@ -199,8 +291,17 @@ def run_one(case, monitor, mangle):
             # dropbox style: folder deletions arrive without id (MockProvider's own switch); EventManager resolves them by path
             for side in (0, 1):
                 world.provs[side]._oidless_folder_trash_events = True
+        counter = {"n": 0}
+        orig_sync = eng.sync
+
+        def counted_sync():
+            counter["n"] += 1
+            return orig_sync()
+        eng.sync = counted_sync
         for side in (0, 1):
             m = Mangler(side, world.raw[side]["events"], fl.oip[side], case["mangle"], case["mangle"]["seed"])
+            m.pending = lambda: eng.cs.state.changeset_len > 0
+            m.syncs = lambda: counter["n"]
             world.provs[side].events = m.events
             mg[side] = m
     hooks["after_base"] = after_base
